@@ -324,6 +324,7 @@ sb_error_t sb_i_buffer_realloc(sb_buffer_t* buf, size_t new_capacity)
 {
     size_t capacity = sb_buffer_capacity(buf);
     size_t size;
+    uint8_t* new_stor_begin;
 
     if (new_capacity < 1) {
         new_capacity = 1;
@@ -336,11 +337,13 @@ sb_error_t sb_i_buffer_realloc(sb_buffer_t* buf, size_t new_capacity)
 
         size = sb_buffer_size(buf);
 
-        buf->stor_begin = sb_realloc(buf->stor_begin, uint8_t, new_capacity);
-        if (buf->stor_begin == 0) {
-            buf->stor_end = buf->end = 0;
+        new_stor_begin = sb_realloc(buf->stor_begin, uint8_t, new_capacity);
+        if (new_stor_begin == 0) {
+            /* the old block is still allocated and still belongs to the buffer */
             return SB_ENOMEM; /* LCOV_EXCL_LINE */
         }
+
+        buf->stor_begin = new_stor_begin;
 
         buf->stor_end = buf->stor_begin + new_capacity;
         buf->end = buf->stor_begin + size;
